@@ -68,6 +68,13 @@ pub fn has_open_requests(w: &World) -> bool {
         if ca == "ta" { continue }
         if let Ok(c) = w.krill.ca_manager().get_ca(&h(&ca)) {
             for p in c.parents() {
+                // a parent that no longer knows this child can never
+                // answer; that request is not "open work"
+                if p.as_str() != "ta" && w.krill.ca_manager().ca_show_child(
+                    &h(p.as_str()), &h(&ca).convert()
+                ).is_err() {
+                    continue
+                }
                 if c.has_pending_requests(p) { return true }
             }
         }
